@@ -109,8 +109,22 @@ func (p *Prog) registry(global string) ([]regRow, error) {
 // boxedKinds collects the concrete types boxed into interface value v (following phis, extracts
 // of static same-package calls, and returns of those callees). unknown is set when a source
 // cannot be resolved.
-func (p *Prog) boxedKinds(v ssa.Value) (kinds map[string]bool, unknown bool) {
+func (p *Prog) boxedKinds(v ssa.Value, envs ...map[*ssa.Parameter]*ssa.Function) (kinds map[string]bool, unknown bool) {
 	kinds = map[string]bool{}
+	// a function-typed parameter bound at the (single) call site that was followed: execRowByRow(chunk, args, body)
+	callee := func(c *ssa.CallCommon) *ssa.Function {
+		if f := c.StaticCallee(); f != nil {
+			return f
+		}
+		if pa, ok := c.Value.(*ssa.Parameter); ok {
+			for _, env := range envs {
+				if f := env[pa]; f != nil {
+					return f
+				}
+			}
+		}
+		return nil
+	}
 	seen := map[ssa.Value]bool{}
 	var rec func(x ssa.Value, depth int)
 	rec = func(x ssa.Value, depth int) {
@@ -131,7 +145,7 @@ func (p *Prog) boxedKinds(v ssa.Value) (kinds map[string]bool, unknown bool) {
 			rec(y.X, depth)
 		case *ssa.Extract:
 			if c, ok := y.Tuple.(*ssa.Call); ok {
-				if f := c.Call.StaticCallee(); f != nil && p.InPkg(f) && f.Blocks != nil {
+				if f := callee(&c.Call); f != nil && p.InPkg(f) && f.Blocks != nil {
 					for _, b := range f.Blocks {
 						if r := retOf(b); r != nil && y.Index < len(r.Results) {
 							rec(retVal(r, y.Index), depth+1)
@@ -180,9 +194,9 @@ func (p *Prog) vecKinds(fn *ssa.Function) (map[string]bool, bool) {
 	all := map[string]bool{}
 	unk := false
 	seenFn := map[*ssa.Function]bool{}
-	var scan func(f *ssa.Function, depth int)
-	scan = func(f *ssa.Function, depth int) {
-		if seenFn[f] || depth > 3 {
+	var scan func(f *ssa.Function, depth int, env map[*ssa.Parameter]*ssa.Function)
+	scan = func(f *ssa.Function, depth int, env map[*ssa.Parameter]*ssa.Function) {
+		if (seenFn[f] && len(env) == 0) || depth > 3 {
 			return
 		}
 		seenFn[f] = true
@@ -202,7 +216,7 @@ func (p *Prog) vecKinds(fn *ssa.Function) (map[string]bool, bool) {
 			if _, isI := sl.Elem().Underlying().(*types.Interface); !isI {
 				return
 			}
-			k, u := p.boxedKinds(st.Val)
+			k, u := p.boxedKinds(st.Val, env)
 			for x := range k {
 				all[x] = true
 			}
@@ -214,14 +228,21 @@ func (p *Prog) vecKinds(fn *ssa.Function) (map[string]bool, bool) {
 				if ex, ok := retVal(r, 0).(*ssa.Extract); ok {
 					if c, ok := ex.Tuple.(*ssa.Call); ok {
 						if g := c.Call.StaticCallee(); g != nil && p.InPkg(g) && g.Blocks != nil {
-							scan(g, depth+1)
+							// function values handed to the helper (a row body evaluated per row)
+							env2 := map[*ssa.Parameter]*ssa.Function{}
+							for ai, a := range c.Call.Args {
+								if fv := asFunction(a); fv != nil && ai < len(g.Params) {
+									env2[g.Params[ai]] = fv
+								}
+							}
+							scan(g, depth+1, env2)
 						}
 					}
 				}
 			}
 		}
 	}
-	scan(fn, 0)
+	scan(fn, 0, nil)
 	return all, unk
 }
 
